@@ -55,13 +55,19 @@ class System(ManagerSystem):
             issues.append(self.issue("violation", hist, op, f"pickle round trip raised {type(e).__name__}: {str(e)[:120]}",
                                      {"definitions": m.dump()}))
             return issues
+        for label, r in m.containers.items():
+            r2 = m2.containers.get(label)
+            if type(r2) is not type(r):
+                issues.append(self.issue("violation", hist, op, f"container ref {label!r} is a {type(r).__name__} in the original and a "
+                                                                f"{type(r2).__name__} in the copy"))
+                return issues
         c = World.from_manager(self.world, m2)
         if c.data is w.data:
             issues.append(self.issue("violation", hist, op, "the copy shares its container with the original"))
             return issues
         if m2.dump() != m.dump():
             issues.append(self.issue("violation", hist, op, "the copy's definitions differ", {"orig": m.dump(), "copy": m2.dump()}))
-        if mgr.canon(c) != mgr.canon(w):
+        if mgr.canon_obs(c) != mgr.canon_obs(w):
             issues.append(self.issue("violation", hist, op, "the copy's concrete state (data / tasks / indices) differs from the original",
                                      {"orig": mgr.index_dump(m), "copy": mgr.index_dump(m2),
                                       "contents": repr(w.contents()), "copy_contents": repr(c.contents())}))
@@ -109,7 +115,8 @@ class System(ManagerSystem):
 def plan(tier, seed):
     seeds = common.seeds_for(tier, seed, quick=(0,), thorough=(0, 1, 2))
     jobs = []
-    runs = [("W-mix", "mix", 2), ("W-nest", "nest", 2)] if tier == "quick" else [("W-mix", "mix", 3), ("W-nest", "nest", 3)]
+    runs = [("W-mix", "mix", 2), ("W-nest", "nest", 2), ("W-mix-attr", "nest", 2)] if tier == "quick" else \
+        [("W-mix", "mix", 3), ("W-nest", "nest", 3), ("W-mix-attr", "mix", 2), ("W-mix-attr", "nest", 3)]
     for hs in seeds:
         for wname, alpha, depth in runs:
             jobs.append({"name": f"bfs:{wname}:{alpha}:d{depth}:seed{hs}", "mode": "compiled", "hashseed": hs,
